@@ -3,7 +3,7 @@
 From Coq Require Import List Arith NArith Bool Lia.
 From Coq Require Import ZifyBool ZifyNat ZifyN.
 From V.gen Require Consts PeerIdSites.
-From V.common Require Import Wire Varint Protobuf.
+From V.common Require Import Wire Varint Protobuf Sha256.
 From V.C18 Require Import Model Proofs.
 Import ListNotations.
 Open Scope N_scope.
@@ -420,3 +420,25 @@ Qed.
 (* the infallible conversion into multiaddr::PeerId: every valid id satisfies the reference's rule *)
 Lemma valid_ref_admits p : valid p = true -> ref_admits p = true.
 Proof. intros V. rewrite <- admits_ref. apply (valid_inv _ V). Qed.
+
+(* ---------- with the concrete SHA-256 (common/Sha256.v) ---------- *)
+(* the first sentence of the property, closed: no hash parameter, no side condition on digests *)
+Lemma derive_sha256_spec enc :
+  derive sha256 enc = if len enc <=? 42 then mkPid 0 enc else mkPid 18 (sha256 enc).
+Proof.
+  unfold derive, of_key_enc. destruct consts_facts as (-> & -> & _ & ->). reflexivity.
+Qed.
+
+Lemma derive_sha256_valid enc : bytes_ok enc = true -> valid (derive sha256 enc) = true.
+Proof.
+  intros B. unfold derive. apply of_key_enc_valid; [exact B|apply sha256_bytes|apply sha256_length].
+Qed.
+
+Lemma derive_sha256_roundtrip enc : bytes_ok enc = true ->
+  of_bytes (to_bytes (derive sha256 enc)) = Some (derive sha256 enc) /\
+  of_text (to_text (derive sha256 enc)) = Some (derive sha256 enc) /\
+  of_component (to_component (derive sha256 enc)) = Some (derive sha256 enc).
+Proof.
+  intros B. pose proof (derive_sha256_valid _ B) as V.
+  repeat split; [apply of_bytes_to_bytes|apply of_text_to_text|apply of_component_to_component]; exact V.
+Qed.
